@@ -110,3 +110,26 @@ func T2() {
 	}
 	vh.Assert(acc >= 0, "acc")
 }
+
+func T3() {
+	m := vh.Int64("m")
+	vh.Assume(m >= 1)
+	vh.Assume(m <= 4)
+	var ord []int
+	if vh.Bool("b0") {
+		ord = append(ord, 0)
+	}
+	if vh.Bool("b1") {
+		ord = append(ord, 1)
+	}
+	want := int(m)
+	if want > len(ord) {
+		want = len(ord)
+	}
+	exp := make([]bool, 2)
+	for j := 0; j < want; j++ {
+		exp[ord[j]] = true
+	}
+	vh.Reach("x")
+	vh.Assert(want <= len(ord), "want")
+}
